@@ -36,3 +36,20 @@ package l1infotreesync
 //@   ensures[unprocessed-block-refused] (result1 == nil) ==> l1LastProcessed >= blockNum
 //@   ensures[error-means-nothing] result1 != nil ==> result0 == nil
 //@   ensures[leaf-at-or-below-the-block] result1 == nil ==> result0 != nil && result0.BlockNumber <= blockNum
+
+// ---- the L1 info tree leaf (C11), PolygonZkEVMGlobalExitRootV2 transcribed (A3):
+//   globalExitRoot = keccak256(mainnetExitRoot ‖ rollupExitRoot)
+//   leaf           = keccak256(globalExitRoot ‖ blockhash(block.number - 1) ‖ uint64(block.timestamp))
+//@ spec fn l1LeafValue(mer Hash, rer Hash, prevBlockHash Hash, timestamp int) Hash = keccak(catB(catB(catB(emptyB(), bytesOf(hb(H(mer, rer)), 32)), bytesOf(hb(prevBlockHash), 32)), beNB(timestamp, 8)))
+
+//@ func (l *L1InfoTreeLeaf) GetGlobalExitRoot
+//@   props C11 C09
+//@   requires l != nil
+//@   modifies nothing
+//@   ensures[ger] result == H(l.MainnetExitRoot, l.RollupExitRoot)
+
+//@ func (l *L1InfoTreeLeaf) GetHash
+//@   props C11
+//@   requires l != nil
+//@   modifies nothing
+//@   ensures[leaf-value] result == l1LeafValue(l.MainnetExitRoot, l.RollupExitRoot, l.PreviousBlockHash, l.Timestamp)
